@@ -726,6 +726,8 @@ func (f *Frame) callLib(i *ssa.Call, g *ssa.Function, args []Val, st *State, r s
 		return tv("(hasSuffix "+args[0].T+" "+args[1].T+")", "Bool")
 	case "strings.HasPrefix":
 		return tv("(hasPrefix "+args[0].T+" "+args[1].T+")", "Bool")
+	case "strings.Contains":
+		return tv("(containsStr "+args[0].T+" "+args[1].T+")", "Bool")
 	case "strings.TrimRightFunc":
 		return tv("(trimRightSpace "+args[0].T+")", "Str")
 	case "unicode.IsLetter":
